@@ -36,6 +36,7 @@ XSI = "http://www.w3.org/2001/XMLSchema-instance"
 
 M1 = '''
 from dataclasses import dataclass, field
+from decimal import Decimal
 from typing import List, Optional, Dict, Callable, Union
 from xsdata.models.datatype import XmlDate, XmlDuration
 
@@ -123,6 +124,15 @@ class UHolder:
 
 
 @dataclass
+class FacAttr:
+    """attributes whose defaults come from FACTORIES (the serializer's ignore_default_attributes option asks the field
+    metadata whether a value equals the default; the decoder asks it what an explicit null stands for)"""
+    v: str = field(default="", metadata={"type": "Element"})
+    rate: Optional[Decimal] = field(default_factory=lambda: Decimal("1.5"), metadata={"type": "Attribute"})
+    codes: List[int] = field(default_factory=lambda: [1, 2], metadata={"type": "Attribute", "tokens": True})
+
+
+@dataclass
 class NilPair:
     """a compound field with TWO nillable choices, a plain one and a tokens one: None belongs to the first,
     an empty token list to the second - which one a nil value takes must not depend on what was asked before"""
@@ -203,6 +213,7 @@ class Shared:
         self.xp = XmlParser(context=self.ctx)
         self.xpl = XmlParser(context=self.ctx, config=ParserConfig(fail_on_unknown_properties=False))
         self.xs = XmlSerializer(context=self.ctx, config=cfg)
+        self.xsd = XmlSerializer(context=self.ctx, config=SerializerConfig(xml_declaration=False, ignore_default_attributes=True))
         self.jp = JsonParser(context=self.ctx)
         self.js = JsonSerializer(context=self.ctx)
 
@@ -242,6 +253,11 @@ def api_ops():
         # element name): the verdict for one string says nothing about the next string
         "decCompoundDate": lambda sh: sh.jp.from_string('{"when": "2024-02-29"}', m.Ev),
         "decCompoundDuration": lambda sh: sh.jp.from_string('{"when": "P1DT12H"}', m.Ev),
+        "serFacDefault": lambda sh: sh.xsd.render(m.FacAttr(v="a")),
+        "serFacOther": lambda sh: sh.xsd.render(m.FacAttr(v="a", rate=Decimal("2"), codes=[3])),
+        "decFacNull": lambda sh: sh.jp.from_string('{"v": "a", "rate": null, "codes": null}', m.FacAttr),
+        "decFacAbsent": lambda sh: sh.jp.from_string('{"v": "a"}', m.FacAttr),
+        "parseFac": lambda sh: sh.xp.from_string('<FacAttr><v>a</v></FacAttr>', m.FacAttr),
         "serNilPlain": lambda sh: sh.xs.render(m.NilPair(vals=[None, 3])),
         "serNilTokens": lambda sh: sh.xs.render(m.NilPair(vals=[[], ["a", "b"]])),
         "encNilPlain": lambda sh: sh.js.render(m.NilPair(vals=[None])),
